@@ -232,6 +232,29 @@ fn gen_c03(sink: &mut Sink, tier: &str, seed: u64) {
     }
 }
 
+/// C04: every accessor on generated well-formed items (random widths and framing, depth 8), at the start and at random
+/// offsets inside them, and on their strict prefixes.
+#[cfg(all(feature = "alloc", feature = "half"))]
+fn gen_c04(sink: &mut Sink, tier: &str, seed: u64) {
+    use crate::cbgen::*;
+    let mut rng = StdRng::seed_from_u64(seed ^ 0xc04);
+    let n = if tier == "thorough" { 30000 } else { 2500 };
+    const ACCS: &[&str] = &["u8","u16","u32","u64","i8","i16","i32","i64","int","char","bool","null","undefined","simple","f16","f32","f64",
+                            "bytes","str","bytes_iter","str_iter","array","map","tag","datatype"];
+    for i in 0..n {
+        let o = Opts { max_depth: 8, max_nodes: if i % 10 == 0 { 200 } else { 12 }, bad_utf8: i % 6 == 0, ..Opts::default() };
+        let it = gen_item(&mut rng, &o);
+        sink.distinct_inputs += 1;
+        let b = crate::abs::bytes(&it);
+        for a in ACCS { sink.call("acc", a, &json!({"buf": b, "pos": 0})) }
+        // somewhere inside
+        for _ in 0..2 { let p = rng.gen_range(0..=it.len()); let a = ACCS[rng.gen_range(0..ACCS.len())]; sink.call("acc", a, &json!({"buf": b, "pos": p})); }
+        // strict prefixes: all for 1 in 50 small items, else one
+        if i % 50 == 0 && it.len() <= 40 { for cut in 0..it.len() { let pb = crate::abs::bytes(&it[..cut]); for a in ACCS { sink.call("acc", a, &json!({"buf": pb, "pos": 0})) } } }
+        else { let cut = rng.gen_range(0..it.len()); let pb = crate::abs::bytes(&it[..cut]); for a in ACCS { sink.call("acc", a, &json!({"buf": pb, "pos": 0})) } }
+    }
+}
+
 /// C11: tokenise + re-encode generated item sequences (preferred and not), mutated and random bytes; encode + tokenise
 /// random token sequences.
 #[cfg(all(feature = "alloc", feature = "half"))]
@@ -445,6 +468,8 @@ pub fn cmd_gen(args: &[String]) -> i32 {
     match fam.as_str() {
         "c05" => gen_c05(&mut sink, tier, seed),
         "c06" => gen_c06(&mut sink, tier, seed),
+        #[cfg(all(feature = "alloc", feature = "half"))]
+        "c04" => gen_c04(&mut sink, tier, seed),
         #[cfg(all(feature = "alloc", feature = "half"))]
         "c11" => gen_c11(&mut sink, tier, seed),
         #[cfg(feature = "alloc")]
